@@ -30,6 +30,9 @@ var dtypes = []dtInfo{
 	{"str", tensor.String, "string", 0},
 	// an element type outside the "specialised" ones (no arithmetic, no ordering): data movement and serialisation only
 	{"uptr", tensor.Uintptr, "uint", 64},
+	// a user-defined element type (an array of two int16): no kernel knows it - addressing, views and copies go through
+	// the generic (reflect / byte-wise) paths
+	{"arr2", tensor.Dtype{Type: reflect.TypeOf([2]int16{})}, "other", 0},
 }
 
 func dtByName(n string) *dtInfo {
@@ -77,6 +80,8 @@ func (d *dtInfo) fromInt(n int64) interface{} {
 		return uint64(n)
 	case "uptr":
 		return uintptr(n)
+	case "arr2":
+		return [2]int16{int16(n), int16(-n)}
 	case "f32":
 		return float32(n)
 	case "f64":
